@@ -222,6 +222,20 @@ func (c *Ctx) exec(cs any) {
 		if pan, pv := Call(func() { Noise(c.noiseRng) }); pan {
 			c.Fail(fmt.Sprintf("an unrelated API call made between cases panicked: %v", pv), "noise-panic", nil)
 		}
+
+		// what the package hands out as constants is still what it was (the caller worked, in place, only on values it had
+		// been handed)
+		c.Res.Counters["package-constants-rechecked"]++
+
+		var why string
+
+		if pan, pv := Call(func() { why = ConstantsIntact() }); pan {
+			why = fmt.Sprint("reading the package's constants panicked: ", pv)
+		}
+
+		if why != "" {
+			c.Fail("after unrelated API calls on values owned by the caller, "+why, "package-state-corrupted", nil)
+		}
 	}
 
 	// Hostile ambient entropy for one case in eight: crypto/rand.Reader serves a degenerate prefix (all zero, the bytes
